@@ -3,5 +3,5 @@
 set -u
 J="${1:-6}"; S="${2:-3}"; O="${3:-0}"
 export BASEFP=$(cat /verif/mut/baseline.fp)
-export CMVERIFY=$(mktemp /tmp/cmverify.XXXXXX); cp /verif/.bin/cmverify "$CMVERIFY"; chmod +x "$CMVERIFY"; trap 'rm -f "$CMVERIFY"' EXIT
+export CMVERIFY=$(mktemp /tmp/cmverify.XXXXXX); cp /verif/.bin/cmverify "$CMVERIFY"; chmod +x "$CMVERIFY"; export GOCACHE=$(mktemp -d /tmp/gocache.XXXXXX); trap 'rm -f "$CMVERIFY"; rm -rf "$GOCACHE"' EXIT
 ls -d /tmp/mut/*/ | sort -t/ -k4 -n | awk -v s="$S" -v o="$O" '(NR-1)%s==o' | xargs -P "$J" -I{} /verif/mut/mut_eval.sh {} >> /tmp/mut_results.jsonl
